@@ -249,6 +249,17 @@ def edit(rng, nb, n_edits=None, shapes=None, focus=None, kinds=None):
                         if m.startswith("text/") and isinstance(o["data"][m], str):
                             o["data"][m] = o["data"][m] + rng.choice(VOCAB)
                             break
+        elif k == "samelen":
+            # a length-preserving edit (x = 1 -> x = 2): the file keeps its byte size
+            src = cells[i]["source"]
+            pos = [j for j, ch in enumerate(src) if ch.isalnum() and ord(ch) < 128]
+            if pos:
+                j = rng.choice(pos)
+                ch = src[j]
+                new = rng.choice([c2 for c2 in "abcxyz0123456789" if c2 != ch])
+                cells[i]["source"] = src[:j] + new + src[j + 1:]
+            else:
+                cells[i]["source"] = src + "x"
         elif k == "ec":
             c = cells[i]
             if c["cell_type"] == "code":
